@@ -321,6 +321,13 @@ where
         })
     }
 
+    fn update_ratio(&mut self, new_ratio: f64, ramp: bool) {
+        if !ramp {
+            self.resample_ratio = new_ratio;
+        }
+        self.target_ratio = new_ratio;
+    }
+
     fn calc_needed_len(&self) -> usize {
         (self.chunk_size as f64 * (0.5 * self.resample_ratio + 0.5 * self.target_ratio) + 10.0)
             as usize
@@ -524,13 +531,10 @@ where
 
     fn set_resample_ratio(&mut self, new_ratio: f64, ramp: bool) -> ResampleResult<()> {
         trace!("Change resample ratio to {}", new_ratio);
-        if (new_ratio / self.resample_ratio_original >= 1.0 / self.max_relative_ratio)
-            && (new_ratio / self.resample_ratio_original <= self.max_relative_ratio)
+        if (new_ratio >= self.resample_ratio_original / self.max_relative_ratio)
+            && (new_ratio <= self.resample_ratio_original * self.max_relative_ratio)
         {
-            if !ramp {
-                self.resample_ratio = new_ratio;
-            }
-            self.target_ratio = new_ratio;
+            self.update_ratio(new_ratio, ramp);
             Ok(())
         } else {
             Err(ResampleError::RatioOutOfBounds {
@@ -543,7 +547,16 @@ where
 
     fn set_resample_ratio_relative(&mut self, rel_ratio: f64, ramp: bool) -> ResampleResult<()> {
         let new_ratio = self.resample_ratio_original * rel_ratio;
-        self.set_resample_ratio(new_ratio, ramp)
+        if (rel_ratio >= 1.0 / self.max_relative_ratio) && (rel_ratio <= self.max_relative_ratio) {
+            self.update_ratio(new_ratio, ramp);
+            Ok(())
+        } else {
+            Err(ResampleError::RatioOutOfBounds {
+                provided: new_ratio,
+                original: self.resample_ratio_original,
+                max_relative_ratio: self.max_relative_ratio,
+            })
+        }
     }
 
     fn reset(&mut self) {
@@ -653,6 +666,14 @@ where
             interpolation: interpolation_type,
             channel_mask,
         })
+    }
+
+    fn update_ratio(&mut self, new_ratio: f64, ramp: bool) {
+        if !ramp {
+            self.resample_ratio = new_ratio;
+        }
+        self.target_ratio = new_ratio;
+        self.update_needed_len();
     }
 
     fn update_needed_len(&mut self) {
@@ -855,15 +876,10 @@ where
 
     fn set_resample_ratio(&mut self, new_ratio: f64, ramp: bool) -> ResampleResult<()> {
         trace!("Change resample ratio to {}", new_ratio);
-        if (new_ratio / self.resample_ratio_original >= 1.0 / self.max_relative_ratio)
-            && (new_ratio / self.resample_ratio_original <= self.max_relative_ratio)
+        if (new_ratio >= self.resample_ratio_original / self.max_relative_ratio)
+            && (new_ratio <= self.resample_ratio_original * self.max_relative_ratio)
         {
-            if !ramp {
-                self.resample_ratio = new_ratio;
-            }
-            self.target_ratio = new_ratio;
-
-            self.update_needed_len();
+            self.update_ratio(new_ratio, ramp);
             Ok(())
         } else {
             Err(ResampleError::RatioOutOfBounds {
@@ -876,7 +892,16 @@ where
 
     fn set_resample_ratio_relative(&mut self, rel_ratio: f64, ramp: bool) -> ResampleResult<()> {
         let new_ratio = self.resample_ratio_original * rel_ratio;
-        self.set_resample_ratio(new_ratio, ramp)
+        if (rel_ratio >= 1.0 / self.max_relative_ratio) && (rel_ratio <= self.max_relative_ratio) {
+            self.update_ratio(new_ratio, ramp);
+            Ok(())
+        } else {
+            Err(ResampleError::RatioOutOfBounds {
+                provided: new_ratio,
+                original: self.resample_ratio_original,
+                max_relative_ratio: self.max_relative_ratio,
+            })
+        }
     }
 
     fn reset(&mut self) {
